@@ -1,6 +1,7 @@
 """Semantics of the Python builtins and builtin-type methods that occur in the verified subset."""
 from __future__ import annotations
 
+import os
 import ast
 import z3
 
@@ -554,7 +555,7 @@ def _ascii_only(s):
 
 
 def str_method(I, s, name, args, kwargs):
-    from .interp import simp, zint, zbool, _and, _or, _not
+    from .interp import simp, zint, zbool, _and, _or, _not, is_sym
     conc = s if isinstance(s, str) else s.concrete()
     if conc is not None and all(isinstance(a, (str, int, type(None), tuple, list)) for a in args):
         if name in ('upper', 'lower', 'strip', 'lstrip', 'rstrip', 'startswith', 'endswith', 'replace', 'split', 'islower',
@@ -625,6 +626,18 @@ def str_method(I, s, name, args, kwargs):
         p = args[0]
         if isinstance(p, str) and S.parts and S.parts[-1][0] == 'lit' and len(S.parts[-1][1]) >= len(p):
             return S.parts[-1][1].endswith(p)
+        if isinstance(p, str) and len(p) == 1 and len(S.parts) == 1 and S.parts[0][0] == 'sym' and is_sym(S.parts[0][1]):
+            j = I.pipes.joins.get(S.parts[0][1].get_id())
+            if j is not None:
+                # sep.join(P) cannot end with a character that occurs in no element when every element is non-empty (its last
+                # character is then the last character of the last element; the empty sequence joins to '')
+                pipe, sep, _ = j
+                from .loops import _pointwise
+                has_c = I.pipes.observable(pipe.with_stage('filter', _pointwise(I, lambda v: I.contains(v, p))), 'ne')
+                has_empty = I.pipes.observable(pipe.with_stage('filter', _pointwise(I, lambda v: _not(I.truth(I.compare_len_positive(v))))), 'ne')
+                if I.provably_false(has_c) and I.provably_false(has_empty):
+                    I.oblige('unify', 'endswith:no-element-has-it', _and(_not(has_c), _not(has_empty)))
+                    return False
         return I.loops.str_endswith(I, S, p)
     if name == 'splitlines' and not args:
         from .interp import Opaque
@@ -634,17 +647,38 @@ def str_method(I, s, name, args, kwargs):
     raise Unsupported(f'str.{name} on symbolic string')
 
 
+class PartialSplit:
+    """the result of str.split of which only the first pieces are known (a later part of the text may contain the separator any
+    number of times): indexing the known pieces from the front is exact, everything else leaves the subset"""
+    def __init__(self, known):
+        self.known = known
+
+
 def rl_split(I, S: SStr, sep: str, maxsplit):
-    """split on a single character for template strings in which the separator occurs only in literal parts."""
+    """split on a single character for template strings: the separator occurs in literal parts, and opaque parts are shown not to
+    contain it (element invariants of joined sequences, assumptions of the contract); when an opaque part may contain it, only the
+    pieces closed before that part are known (PartialSplit)."""
+    from .interp import _not
     for p in S.parts:
         if p[0] == 'run' and p[1] == sep:
             raise Unsupported('split: separator inside a run')
         if p[0] == 'int' and sep in '-0123456789':
             raise Unsupported('split: separator may occur in str(int)')
-        if p[0] == 'sym':
-            raise Unsupported('split of opaque string')
     pieces, cur, n = [], [], 0
+    partial = False
     for p in S.parts:
+        if p[0] == 'sym':
+            occurs = I.contains(SStr([p]), sep)
+            if not I.provably_false(occurs):
+                if os.environ.get('PYVC_DEBUG'):
+                    print('split: cannot show that', repr(sep), 'does not occur in', p, '; pieces known so far:', len(pieces))
+                if not pieces:
+                    raise Unsupported('split of opaque string')
+                partial = True
+                break
+            I.oblige('unify', 'split:separator-free-part', _not(I.truth(occurs)))
+            cur.append(p)
+            continue
         if p[0] != 'lit':
             cur.append(p)
             continue
@@ -659,13 +693,14 @@ def rl_split(I, S: SStr, sep: str, maxsplit):
             cur = []
             n += 1
             text = text[i + 1:]
-    pieces.append(cur)
+    if not partial:
+        pieces.append(cur)
     out = []
     for pc in pieces:
-        s = SStr(pc)
+        s = SStr([q for q in pc if not (q[0] == 'lit' and q[1] == '')])
         c = s.concrete()
         out.append(c if c is not None else s)
-    return out
+    return PartialSplit(out) if partial else out
 
 
 def str_join(I, sep, xs):
